@@ -230,6 +230,7 @@ func timesParseDuration(args ...tengo.Object) (
 	dur, err := time.ParseDuration(s1)
 	if err != nil {
 		ret = wrapError(err)
+		err = nil
 		return
 	}
 
@@ -517,6 +518,7 @@ func timesDate(args ...tengo.Object) (
 		loc, err = time.LoadLocation(i8)
 		if err != nil {
 			ret = wrapError(err)
+			err = nil
 			return
 		}
 	} else {
@@ -571,6 +573,7 @@ func timesParse(args ...tengo.Object) (ret tengo.Object, err error) {
 	parsed, err := time.Parse(s1, s2)
 	if err != nil {
 		ret = wrapError(err)
+		err = nil
 		return
 	}
 
@@ -1169,6 +1172,7 @@ func timesInLocation(args ...tengo.Object) (
 	location, err := time.LoadLocation(s2)
 	if err != nil {
 		ret = wrapError(err)
+		err = nil
 		return
 	}
 
